@@ -123,7 +123,112 @@ def vspace_rows(rules, class_index):
     return rows
 
 
-def emit(irows, vrows, lean_str, lean_list, lean_bool, class_index=None):
+PREFIX = "vsg.rules.token_prefix.token_prefix"
+SUFFIX = "vsg.rules.token_suffix.token_suffix"
+AFFIX_TOI = {
+    "token_prefix": 0,
+    "token_suffix": 0,
+    "token_prefix_between_tokens": 1,
+    "token_suffix_between_tokens": 1,
+    "token_prefix_between_tokens_unless_between_tokens": 2,
+    "token_suffix_between_tokens_unless_between_tokens": 2,
+}
+
+
+def affix_rows(rules, class_index):
+    """token_prefix / token_suffix rules (wp2b): kind (0 prefix, 1 suffix), `lTokens`, extractor variant (0 plain,
+    1 between, 2 between-unless, 3 port rules port_600..609: interface elements with a mode keyword), `oStart`,
+    `oEnd`, `lUnless`, mode keyword class, default prefixes / suffixes"""
+    import re
+
+    rows = []
+    for r in rules:
+        cls = type(r)
+        ao = owner_of(cls, "_analyze")
+        if ao not in (PREFIX, SUFFIX):
+            continue
+        kind = 0 if ao == PREFIX else 1
+        cs = _clist(class_index, r.lTokens)
+        if cs is None:
+            continue
+        to = owner_of(cls, "_get_tokens_of_interest").split(".")[-1]
+        row = {"id": r.unique_id, "kind": kind, "cs": cs, "variant": None, "a": 0, "b": 0, "unless": [], "mode": 0, "affixes": getattr(r, "prefixes" if kind == 0 else "suffixes", None)}
+        if to in AFFIX_TOI:
+            v = AFFIX_TOI[to]
+            row["variant"] = v
+            if v in (1, 2):
+                a, b = _cidx(class_index, r.oStart), _cidx(class_index, r.oEnd)
+                if a is None or b is None:
+                    continue
+                row.update(a=a, b=b)
+            if v == 2:
+                un = []
+                for pr in r.lUnless:
+                    x, y = _cidx(class_index, pr[0]), _cidx(class_index, pr[1])
+                    if len(pr) != 2 or x is None or y is None:
+                        un = None
+                        break
+                    un.append([x, y])
+                if un is None:
+                    continue
+                row["unless"] = un
+        else:
+            try:
+                src = inspect.getsource(cls._get_tokens_of_interest)
+            except (OSError, TypeError):
+                continue
+            m = re.search(r"extract_identifiers_with_mode_of_(\w+)", src)
+            m2 = re.search(r"get_interface_elements_between_tokens\(token\.port_clause\.open_parenthesis, token\.port_clause\.close_parenthesis\)", src)
+            if not m or not m2:
+                continue
+            mode = {"input": "in", "out": "out", "inout": "inout", "buffer": "buffer", "linkage": "linkage"}.get(m.group(1))
+            mc = class_index.get("vsg.token.mode.%s_keyword" % mode)
+            a = class_index.get("vsg.token.port_clause.open_parenthesis")
+            b = class_index.get("vsg.token.port_clause.close_parenthesis")
+            if mc is None or a is None or b is None:
+                continue
+            row.update(variant=3, a=a, b=b, mode=mc)
+        if not (row["affixes"] is None or (isinstance(row["affixes"], list) and all(isinstance(x, str) for x in row["affixes"]))):
+            continue
+        rows.append(row)
+    rows.sort(key=lambda x: x["id"])
+    return rows
+
+
+def emit_affix(arows, class_index, lean_str, lean_list):
+    L = []
+    L.append("/-- parameters of one token_prefix / token_suffix rule (wp2b): kind 0 prefix / 1 suffix; `lTokens`; extractor")
+    L.append("    variant 0 plain, 1 between, 2 between-unless, 3 port-mode; `oStart`, `oEnd`; `lUnless`; mode keyword class;")
+    L.append("    the default `prefixes` / `suffixes` (none = None) -/")
+    L.append("structure AffixRuleRow where")
+    L.append("  id : String")
+    L.append("  kind : Nat")
+    L.append("  cs : List Nat")
+    L.append("  variant : Nat")
+    L.append("  a : Nat")
+    L.append("  b : Nat")
+    L.append("  unl : List (Nat × Nat)")
+    L.append("  mode : Nat")
+    L.append("  affixes : Option (List String)")
+    L.append("  deriving Repr, DecidableEq")
+    items = []
+    for r in arows:
+        items.append(
+            "  { id := %s, kind := %d, cs := %s, variant := %d, a := %d, b := %d, unl := %s, mode := %d, affixes := %s }"
+            % (lean_str(r["id"]), r["kind"], lean_list([str(x) for x in r["cs"]]), r["variant"], r["a"], r["b"], lean_list(["(%d, %d)" % (x, y) for x, y in r["unless"]]), r["mode"], "none" if r["affixes"] is None else "some " + lean_list([lean_str(x) for x in r["affixes"]]))
+        )
+    names = []
+    for i in range(0, max(len(items), 1), 32):
+        nm = "affixRuleChunk%d" % (i // 32)
+        names.append(nm)
+        L.append("def %s : List AffixRuleRow := [\n%s\n]" % (nm, ",\n".join(items[i : i + 32])))
+    L.append("def affixRuleTable : List AffixRuleRow := " + " ++ ".join(names))
+    for nm, py in (("identifierCls", "vsg.parser.identifier"), ("preprocessorCls", "vsg.parser.preprocessor")):
+        L.append("def %s : Nat := %d" % (nm, class_index.get(py, 0)))
+    return L
+
+
+def emit(irows, vrows, lean_str, lean_list, lean_bool, class_index=None, arows=None):
     L = []
     L.append("/- GENERATED by harness/gen_bfull2.py from the instantiated rule objects of /repo — do not edit -/")
     L.append("namespace Vsgm.Gen")
@@ -189,6 +294,10 @@ def emit(irows, vrows, lean_str, lean_list, lean_bool, class_index=None):
         L.append("/-- class number of `token.pragma.pragma` (appended to lAllowTokens by require_blank_line_unless_pragma) -/")
         L.append("def pragmaCls : Nat := %d" % class_index["vsg.token.pragma.pragma"])
     # END wp2_vspace
+    # BEGIN wp2b_affix
+    if class_index is not None and arows is not None:
+        L += emit_affix(arows, class_index, lean_str, lean_list)
+    # END wp2b_affix
     L.append("end Vsgm.Gen")
     return "\n".join(L) + "\n"
 
@@ -199,5 +308,6 @@ def generate(class_index, gen_dir, write_if_changed, lean_str, lean_list, lean_b
     rules = rule_list.load_rules()
     irows = indent_rows(rules, class_index)
     vrows = vspace_rows(rules, class_index)
-    changed = write_if_changed(os.path.join(gen_dir, "BFull2Rules.lean"), emit(irows, vrows, lean_str, lean_list, lean_bool, class_index))
-    return {"indent": irows, "vspace": vrows}, changed
+    arows = affix_rows(rules, class_index)  # wp2b_affix
+    changed = write_if_changed(os.path.join(gen_dir, "BFull2Rules.lean"), emit(irows, vrows, lean_str, lean_list, lean_bool, class_index, arows))
+    return {"indent": irows, "vspace": vrows, "affix": arows}, changed
